@@ -41,7 +41,7 @@ def evaluate(seed, patch, checks, outdir):
         res = {}
         for c in checks:
             t = time.time()
-            rc, out = sh([lab + "/verif/check", c, "--tier", "quick"], cwd=lab + "/verif", env=env)
+            rc, out = sh([lab + "/verif/check", c, "--tier", os.environ.get("SEED_TIER", "quick")], cwd=lab + "/verif", env=env)
             kinds = []
             for l in out.splitlines():
                 if l.startswith("VIOLATION"):
